@@ -169,8 +169,142 @@ def _stmt_paths(st: ast.stmt, ctr: _Counter) -> list[Path]:
     return [Path([Event("stmt", st)])]
 
 
-def function_paths(fn: ast.FunctionDef) -> list[Path]:
-    return paths_of(fn.body)
+def function_paths(fn: ast.FunctionDef, prune: bool = True) -> list[Path]:
+    ps = paths_of(fn.body)
+    if prune:
+        ps = [p for p in ps if feasible(p)]
+    return ps
+
+
+# ------------------------------------------------------------------ constant flags
+_UNKNOWN = object()
+
+
+def _truth(e: ast.AST, env: dict):
+    """Truth value of a test under known constant locals; None when unknown."""
+    if isinstance(e, ast.Constant):
+        return bool(e.value)
+    if isinstance(e, ast.Name):
+        v = env.get(e.id, _UNKNOWN)
+        return None if v is _UNKNOWN else bool(v)
+    if isinstance(e, ast.UnaryOp) and isinstance(e.op, ast.Not):
+        t = _truth(e.operand, env)
+        return None if t is None else not t
+    if isinstance(e, ast.BoolOp):
+        ts = [_truth(v, env) for v in e.values]
+        if isinstance(e.op, ast.And):
+            if any(t is False for t in ts):
+                return False
+            return True if all(t is True for t in ts) else None
+        if any(t is True for t in ts):
+            return True
+        return False if all(t is False for t in ts) else None
+    if isinstance(e, ast.Compare) and len(e.ops) == 1 and isinstance(e.left, ast.Name) and isinstance(e.comparators[0], ast.Constant):
+        v = env.get(e.left.id, _UNKNOWN)
+        if v is _UNKNOWN:
+            return None
+        c = e.comparators[0].value
+        op = e.ops[0]
+        try:
+            if isinstance(op, ast.Is):
+                return v is c
+            if isinstance(op, ast.IsNot):
+                return v is not c
+            if isinstance(op, ast.Eq):
+                return v == c
+            if isinstance(op, ast.NotEq):
+                return v != c
+        except Exception:
+            return None
+    return None
+
+
+def _assign_then_leave(loop: ast.AST, name: str) -> bool:
+    def stores(st: ast.AST) -> bool:
+        return any(isinstance(x, ast.Name) and isinstance(x.ctx, ast.Store) and x.id == name for x in ast.walk(st))
+
+    def block_ok(stmts) -> bool:
+        for i, st in enumerate(stmts):
+            if isinstance(st, (ast.Assign, ast.AnnAssign, ast.AugAssign)) and stores(st):
+                rest = stmts[i + 1:]
+                j = next((k for k, r in enumerate(rest) if isinstance(r, (ast.Break, ast.Return, ast.Raise))), None)
+                if j is None or not all(isinstance(r, (ast.Assign, ast.AnnAssign, ast.Assert, ast.Expr)) for r in rest[:j]):
+                    return False
+            elif stores(st):
+                for fld in ("body", "orelse", "finalbody"):
+                    sub = getattr(st, fld, None)
+                    if isinstance(sub, list) and sub and isinstance(sub[0], ast.stmt) and not block_ok(sub):
+                        return False
+                if isinstance(st, (ast.For, ast.While, ast.With, ast.Try, ast.Match)) and not isinstance(st, ast.If):
+                    return False
+        return True
+
+    body = getattr(loop, "body", [])
+    tgt = getattr(loop, "target", None)
+    if tgt is not None and stores(tgt):
+        return False
+    return block_ok(body)
+
+
+def feasible(path: Path) -> bool:
+    """False when a test on the path contradicts a constant the path itself assigned to a local
+    (flag variables: `found = False ... found = True; break ... if not found:`)."""
+    env: dict = {}
+
+    def kill(t: ast.AST) -> None:
+        for n in ast.walk(t):
+            if isinstance(n, ast.Name):
+                env.pop(n.id, None)
+
+    for e in path.events:
+        n = e.node
+        if e.kind == "test":
+            t = _truth(n, env)
+            if t is not None and t != bool(e.pol):
+                return False
+        elif e.kind == "stmt":
+            if isinstance(n, ast.Assign):
+                if len(n.targets) == 1 and isinstance(n.targets[0], ast.Name) and isinstance(n.value, ast.Constant):
+                    env[n.targets[0].id] = n.value.value
+                else:
+                    for t in n.targets:
+                        kill(t)
+            elif isinstance(n, (ast.AugAssign, ast.AnnAssign)):
+                if isinstance(n, ast.AnnAssign) and isinstance(n.target, ast.Name) and isinstance(n.value, ast.Constant):
+                    env[n.target.id] = n.value.value
+                else:
+                    kill(n.target)
+            elif isinstance(n, ast.Try):
+                env.clear()
+            else:
+                for x in ast.walk(n):
+                    if isinstance(x, ast.NamedExpr):
+                        kill(x.target)
+                    elif isinstance(x, ast.Name) and isinstance(x.ctx, (ast.Store, ast.Del)):
+                        env.pop(x.id, None)
+        elif e.kind == "loop":
+            if hasattr(n, "target"):
+                kill(n.target)  # type: ignore[attr-defined]
+        elif e.kind == "loopend":
+            # one unfolding stands for any number of iterations: what the body assigned is unknown afterwards
+            for x in ast.walk(n):
+                if isinstance(x, ast.Name) and isinstance(x.ctx, ast.Store) and x.id in env:
+                    vals = {repr(a.value.value) if isinstance(a.value, ast.Constant) else "?" for a in ast.walk(n)
+                            if isinstance(a, ast.Assign) and any(isinstance(t, ast.Name) and t.id == x.id for t in a.targets)}
+                    same = len(vals) == 1 and "?" not in vals and repr(env[x.id]) in vals
+                    # (a) whatever iteration assigned it, it assigned this constant; or
+                    # (b) assigning it always leaves the loop, so falling out normally means it was never assigned
+                    if not (same or _assign_then_leave(n, x.id)):
+                        env.pop(x.id, None)
+        elif e.kind in ("with", "case", "except"):
+            for x in ast.walk(n):
+                if isinstance(x, ast.Name) and isinstance(x.ctx, ast.Store):
+                    env.pop(x.id, None)
+                elif isinstance(x, (ast.MatchAs, ast.MatchStar)) and getattr(x, "name", None):
+                    env.pop(x.name, None)
+            if e.kind == "except":
+                env.clear()
+    return True
 
 
 # ------------------------------------------------------------------ queries
